@@ -267,6 +267,10 @@ class Run:
               "violations": len(self.violations)}
         if self.notes:
             ev["coverage"]["notes"] = self.notes
+        if ev["coverage"].get("discharged", 1) == 0:
+            # schema: a proof-level record needs discharged >= 1; a broken build is reported through the
+            # generic counts instead (and through the VIOLATION line)
+            ev["coverage"]["discharged_count"] = ev["coverage"].pop("discharged")
         ev["coverage"]["known_findings_printed"] = list(self.known_lines)
         os.makedirs(os.path.join(ROOT, "evidence"), exist_ok=True)
         with open(os.path.join(ROOT, "evidence", "%s.json" % self.prop), "w") as f:
